@@ -374,6 +374,17 @@ pub fn profile_for(prop: &str, tier: &str) -> Profile {
         p.n_ops = 40;
     }
     match prop {
+        // C01 / C02 over histories: keys generated at any point against encapsulations made at any later point,
+        // across edits, store / load of the master key, updates and refreshes
+        "C01h" | "C02h" => {
+            // every kind of operation in balance (edits, updates, rotations, prunes, refreshes with either flag, store / load)
+            p.w_edit = 5;
+            p.w_update = 4;
+            p.w_recaps = 0;
+            p.w_roundtrip = 3;
+            p.malformed_pct = 5;
+            p.matrix_often = true;
+        }
         "C03" => {
             p.w_edit = 8;
             p.w_update = 5;
@@ -791,7 +802,7 @@ pub fn plan_c08(tier: &str, seed: u64) -> Plan {
                 format!("reflavour {a}"), format!("reflavour 0"), format!("reflavour 1"), format!("reflavour 2"),
                 "strip_sig".into(), format!("flip_sig {}", rng.below(32)), format!("flip_id {}", rng.below(31)), "swap_id".into(),
                 format!("splice_chain U{v} {a}"), format!("splice_chain U{v} 0"), format!("splice_sig U{v}"), format!("splice_id U{v}"),
-                "foreign".into(), "sibling".into(),
+                "foreign".into(), "sibling".into(), "marker_into_name".into(), "secret_into_id".into(),
             ];
             for op in ops {
                 c.lines.push(format!("c08 U{u} {op}"));
@@ -805,6 +816,6 @@ pub fn plan_c08(tier: &str, seed: u64) -> Plan {
         per_line: true,
         cases,
         exhaustive: false,
-        rule: format!("{n_cases} random small histories (keys for 5 policies incl. '*', 0..3 rekeys each followed by a refresh with keep: single and multiple rights, 1..4 revisions, classic and hybridised secrets); on every key version 42 tampering operators on the serialised form (reorder / drop / duplicate / rename rights, move / swap / drop secrets, shift bytes between a right's name and its secret, merge a chain into a name, merge the broadcast chain into its neighbour, flavour change with re-chunking, strip / flip / splice signature, flip / swap / splice id, splice a chain of another issued key, key of another authority, key issued by a replica of this master key) plus the untouched control; the real refresh_usk (both flags, on copies) is compared with the Lean byte-level MAC model and with the specification (only the issued key is accepted; nothing modified on rejection)"),
+        rule: format!("{n_cases} random small histories (keys for 5 policies incl. '*', 0..3 rekeys each followed by a refresh with keep: single and multiple rights, 1..4 revisions, classic and hybridised secrets); on every key version 44 tampering operators on the serialised form (reorder / drop / duplicate / rename rights, move / swap / drop secrets, shift bytes between a right's name and its secret, merge a chain into a name, merge the broadcast chain into its neighbour, move the last marker of the identifier into the first right's name or the first secret of the empty-named right into the identifier, flavour change with re-chunking, strip / flip / splice signature, flip / swap / splice id, splice a chain of another issued key, key of another authority, key issued by a replica of this master key) plus the untouched control; the real refresh_usk (both flags, on copies) is compared with the Lean byte-level MAC model and with the specification (only the issued key is accepted; nothing modified on rejection)"),
     }
 }
